@@ -101,7 +101,7 @@ def gen_history(rnd, g, kind="", pinned=None):
     if "if_not_contains(abc)" in kind and rnd.random() < 0.6:
         # a prefix the condition refuses (lower-case attribute of its last command) with admitted extensions
         g._numeric_prefix = False
-        base = g.action(0, 0, True) + "/attr_low/" + g.query(0, first=False, max_len=3)
+        base = g.action(0, 0, True) + rnd.choice(["/attr_low/", "/attr_low/", "/attr_false/"]) + g.query(0, first=False, max_len=3)
     if base is None and rnd.random() < 0.25:
         # values of every built-in state type (what serialising caches have to round-trip)
         base = rnd.choice(["mk-tuple-3/ident", "mk-pairs-2/ident", "mk-set-2/ident", "mk-df-2/ident", "mk-bytes-3/ident",
@@ -237,6 +237,15 @@ def run_shard(spec, mode=None):
         rnd = random.Random("%s/%s/%s/%s" % (spec["seed"], mode, kind, spec["rep"]))
         g = QGen(rnd, allow_fail=True, allow_volatile=True, allow_mutators=True, max_len=4)
         g.avoid_none_default = True
+        if spec["rep"] == 0:
+            # fixed short histories: a result labelled with a file name whose format is not its type's own, asked for twice
+            for j, pq in enumerate(["mk-pairs-2/res.json", "mk-pairs-2/filename-w.json/ident", "mk-tuple-2/ident/t.json", "mk-list-1/push-~X~/mk-tuple-2~E/l.json",
+                                    "mk-df-2/frame.csv", "mk-dict-2/d.txt", "lit-abc/t.json", "mk-bytes-2/b.txt"]):
+                stats["hist_id"] = "%s.fixed%d" % (spec["rep"], j)
+                fam = [pq] + E.prefixes_of(pq)[1:]
+                events = [{"ev": "eval", "q": pq}, {"ev": "eval", "q": pq}, {"ev": "eval", "q": E.prefixes_of(pq)[-1] if E.prefixes_of(pq) else pq},
+                          {"ev": "eval", "q": pq}]
+                run_history(env, kind, fam, events, scratch, make_viol(kind, fam, events), stats, mode)
         for h in range(spec["n"]):
             stats["hist_id"] = "%s.%d" % (spec["rep"], h)
             # the first histories of every configuration are about values JSON has no native form for
